@@ -311,7 +311,7 @@ func init() {
 				"BrowserSig":       {"chrome", "firefox", "safari", "Chrome", "FIREFOX", "Safari", "opera", ""},
 				"Transport":        {"direct", "CDN", "cdn", "Direct", "DIRECT", "Cdn", ""},
 				"EncryptionMethod": {"plain", "aes-gcm", "aes-256-gcm", "aes-128-gcm", "chacha20-poly1305", "AES-GCM", "Plain", "ChaCha20-Poly1305", "rot13", "aes-256-gcm "},
-				"AlternativeNames": {[]string{"a.com"}, []string{"a.com", "", "b.com"}, []string{"a.com", "b.com", "c.com"}},
+				"AlternativeNames": {[]string{"a.com"}, []string{"a.com", "", "b.com"}, []string{"a.com", "b.com", "c.com"}, []string{"", ""}, []string{"a.com", "", ""}, []string{"", "", "a.com"}, []string{"", "a.com", "", "", "b.com", ""}, []string{""}},
 				"UDP":              {true, false},
 				"CDNOriginHost":    {"origin.example.org", ""},
 				"CDNWsUrlPath":     {"/ws", "/", "/a/b", ""},
